@@ -339,30 +339,40 @@ def rule_r2(prog, res) -> None:
 def rule_r3(prog, res) -> None:
     """closed side flows configuration -> build_trees(closed=) -> Binning(closed=)"""
     n = 0
+    from .c01 import _measure_paths
+
     for name in ("autocorrelate", "crosscorrelate"):
         for fi in prog.find_funcs(name):
             res.touch(fi)
-            for call in calls_in(fi):
-                f = call.func
-                if not (isinstance(f, ast.Attribute) and f.attr == "build_trees"):
-                    continue
-                first = call.args[0] if call.args else kwarg(call, "binning")
-                if first is None or (isinstance(first, ast.Constant) and first.value is None):
-                    continue  # unbinned build: no closed side involved
-                n += 1
-                c = kwarg(call, "closed")
-                star = [k for k in call.keywords if k.arg is None]
-                if c is None and star:
-                    # closed may travel in **kwargs
-                    for k in star:
-                        if depends_on(fi.node, k.value, lambda x: isinstance(x, ast.Attribute) and x.attr == "closed"):
-                            c = k.value
-                if c is None:
-                    res.violation("C10.R3", fi, call, "binned build_trees call does not pass closed=: trees are built with the default side regardless of the configuration", key_extra=f"no-closed-{unparse(f.value)}")
-                elif not depends_on(fi.node, c, lambda x: isinstance(x, ast.Attribute) and x.attr == "closed" and depends_on(fi.node, x.value, lambda y: isinstance(y, ast.Name) and y.id == "config")):
-                    res.violation("C10.R3", fi, call, f"closed={unparse(c)} is not taken from config.binning.closed", key_extra=f"closed-not-from-config-{unparse(f.value)}")
-                else:
-                    res.ok("C10.R3", res.site(fi, norm_stmt(call)[:60]), "closed= is data-dependent on config.binning.closed")
+            cfg_param = next((q for q in fi.param_names() if "config" in q), "config")
+            seen = set()
+            # every binned build on every path, for every combination of optional inputs (loops over lists of
+            # catalogs unrolled, **kwargs dictionaries substituted)
+            for env, p in _measure_paths(prog, fi):
+                for ev in p.calls("build_trees"):
+                    call = ev.expr
+                    first = call.args[0] if call.args else kwarg(call, "binning")
+                    if first is None or (isinstance(first, ast.Constant) and first.value is None):
+                        continue  # unbinned build: no closed side involved
+                    recv = unparse(call.func.value) if isinstance(call.func, ast.Attribute) else "?"
+                    if (id(ev.node), recv) in seen:
+                        continue
+                    seen.add((id(ev.node), recv))
+                    n += 1
+                    c = kwarg(call, "closed")
+                    if c is None:
+                        for k in call.keywords:
+                            if k.arg is None and isinstance(k.value, ast.Dict):
+                                for kk, vv in zip(k.value.keys, k.value.values):
+                                    if isinstance(kk, ast.Constant) and kk.value == "closed":
+                                        c = vv
+                    from_cfg = c is not None and any(isinstance(x, ast.Attribute) and x.attr == "closed" and any(isinstance(y, ast.Name) and y.id == cfg_param for y in ast.walk(x.value)) for x in ast.walk(c))
+                    if c is None:
+                        res.violation("C10.R3", fi, ev.node, "binned build_trees call does not pass closed=: trees are built with the default side regardless of the configuration", key_extra=f"no-closed-{recv}")
+                    elif not from_cfg:
+                        res.violation("C10.R3", fi, ev.node, f"closed={unparse(c)[:40]} is not taken from config.binning.closed", key_extra=f"closed-not-from-config-{recv}")
+                    else:
+                        res.ok("C10.R3", res.site(fi, f"{recv}.build_trees"), "closed= is config.binning.closed")
     if n < 4:
         raise AnalysisError(f"C10.R3: only {n} binned build_trees calls found in the measurement entry points (minimum 4)")
     # Catalog.build_trees forwards its parameter into Binning(…, closed=…)
